@@ -400,6 +400,28 @@ class ByteLoop:
                     part = (S & ts) if s["when"] == "true" else (S - ts)
                     if part:
                         work.append((s["to"], 0, part))
+            elif c is not None and t.get("kind") == "SwitchStmt" and self.sem.mentions(c, env):
+                # switch on the byte (or a function of it): each case label takes the bytes whose value equals it, the
+                # default label (or the fall-out successor) takes the rest; a case block that falls through into the
+                # next one is followed like any other edge afterwards
+                vals = self.sem.vals(X.strip(c), env)
+                taken = set()
+                default_to = None
+                for s in succ:
+                    lb = self.blocks[s["to"]].get("label", {})
+                    if "case" in lb and X.const_val(lb["case"]) is not None:
+                        cv = X.const_val(lb["case"])
+                        part = frozenset(x for x in S if vals.get(x) is not None and vals[x] == cv)
+                        taken |= part
+                        if part:
+                            work.append((s["to"], 0, part))
+                    else:
+                        default_to = s["to"] if default_to is None else default_to
+                rest = S - taken
+                if rest:
+                    if default_to is None:
+                        raise Unsupported("switch on a byte without a default successor")
+                    work.append((default_to, 0, rest))
             elif c is not None and len(succ) == 2 and X.show(X.strip(c)) in getattr(self, "assume", {}):
                 # a condition on non-byte state that the caller pins (e.g. "still in the host, no port colon yet")
                 want = self.assume[X.show(X.strip(c))]
